@@ -84,6 +84,8 @@ func mutantsFor(prop string) []Mutant {
 		{"C03", "match numbered by the queue size", []Edit{{sr, "currentState.MakeMatch(matchNumber + 1)", "currentState.MakeMatch(int(matches.Size()) + 1)"}}},
 		{"C05", "transform sees the position in the window as matchNumber", []Edit{{sr, "env[\"matchNumber\"] = ProcessValueNumber{next_state.match.MatchNumber}", "env[\"matchNumber\"] = ProcessValueNumber{next_state.programCounter}"}}},
 		{"C09", "whole-word classes admitted as list members", []Edit{{ps, "t == LOWER || t == LETTER\n}", "t == LOWER || t == LETTER || t == WHOLE\n}"}}},
+		{"C05", "statements after a return still run in a transform", []Edit{{sr, "\tfor _, stmt := range i.Process {\n\t\tpstate = executeStatement(&stmt, pstate)\n\t\tif pstate.status == RETURNING {\n\t\t\tfinal_value = pstate.currentValue\n\t\t\tbreak\n", "\tfor _, stmt := range i.Process {\n\t\tpstate = executeStatement(&stmt, pstate)\n\t\tif pstate.status == RETURNING {\n\t\t\tfinal_value = pstate.currentValue\n"}}},
+		{"C11", "the true branch of an if keeps running after a return", []Edit{{ex, "\t\tfor _, stmt := range s.TrueBody {\n\t\t\texpr_state = executeStatement(&stmt, expr_state)\n\t\t\tif expr_state.status != NEXT {\n\t\t\t\tbreak\n\t\t\t}\n", "\t\tfor _, stmt := range s.TrueBody {\n\t\t\texpr_state = executeStatement(&stmt, expr_state)\n"}}},
 		{"C08", "parse error leaves the parser lock held", []Edit{{ps, "\tcapture_group_lock.Lock()\n\tdefer capture_group_lock.Unlock()\n", "\tcapture_group_lock.Lock()\n"}}},
 		{"C14", "regexp literal byte converted as a code point", []Edit{{rx, "\t\tstart = &AstString{false, regexp[index : index+size], false}", "\t\tstart = &AstString{false, string(regexp[index]), false}"}}},
 		{"C16", "layout branch takes the blank after a backslash", []Edit{{lx, "\t\t} else if unicode.IsSpace(ch) && current_state != SSTRING_D_ESCAPE && current_state != SSTRING_S_ESCAPE {", "\t\t} else if unicode.IsSpace(ch) {"}}},
